@@ -5,19 +5,35 @@ build(name, sig, kind, rs) -> (args: dict name -> value) or None when no builder
   und     symmetric weighted float, empty diagonal           bin   symmetric binary float, empty diagonal
   dir     directed weighted float, empty diagonal            wdiag directed weighted float, NONZERO diagonal
   signed  symmetric signed float, NONZERO diagonal           int   symmetric binary int64, NONZERO diagonal
+  bool    symmetric dtype=bool, empty diagonal               booldiag  symmetric dtype=bool, NONZERO diagonal
+  disc    symmetric weighted float, two components (disconnected), empty diagonal
+Parameter roles: distance-matrix parameters (`D`) of the kinds bool / booldiag / disc are distance matrices of a
+disconnected graph (inf between the components, 0 on the diagonal); partition parameters get arbitrary labels.
+flag_space(func) enumerates the boolean / small-enum keyword flags of a function from its signature defaults and the
+choices quoted in its docstring.
 Label vectors use arbitrary (non-contiguous, unordered) labels; for kind 'int' they are int64, otherwise float or int.
 """
 import os, tempfile, inspect
 import numpy as np
 
 N = 6
-KINDS = ('und', 'bin', 'dir', 'wdiag', 'signed', 'int')
+KINDS = ('und', 'bin', 'dir', 'wdiag', 'signed', 'int', 'bool', 'booldiag', 'disc')
 
 
 def mat(kind, rs, n=N, dens=0.6):
     mask = rs.rand(n, n) < dens
     w = np.floor(rs.rand(n, n) * 9) + 1.0
-    if kind in ('und', 'bin', 'signed', 'int'):
+    if kind == 'disc':
+        h = n // 2
+        mask = np.triu(mask, 1)
+        mask[:h, h:] = False
+        for i in range(n - 1):
+            if i != h - 1:
+                mask[i, i + 1] = True
+        mask = mask | mask.T
+        w = np.triu(w, 1)
+        return (w + w.T) * mask
+    if kind in ('und', 'bin', 'signed', 'int', 'bool', 'booldiag'):
         mask = np.triu(mask, 1)
         # make sure the graph has a spanning path so that most measures are defined
         for i in range(n - 1):
@@ -31,6 +47,10 @@ def mat(kind, rs, n=N, dens=0.6):
         np.fill_diagonal(mask, False)
     if kind == 'bin':
         A = mask.astype(float)
+    elif kind in ('bool', 'booldiag'):
+        A = mask.astype(bool)
+        if kind == 'booldiag':
+            A[np.arange(n), np.arange(n)] = True
     elif kind == 'int':
         A = mask.astype(np.int64)
         A[np.arange(n), np.arange(n)] = 1
@@ -51,13 +71,18 @@ def labels(kind, rs, n=N):
     ci = pool[np.sort(rs.randint(0, 3, size=n))]
     ci[0], ci[-1] = pool[0], pool[1]
     rs.shuffle(ci)
-    return ci.astype(np.int64) if kind in ('int', 'bin', 'dir') else ci.astype(float)
+    return ci.astype(np.int64) if kind in ('int', 'bin', 'dir', 'bool', 'booldiag') else ci.astype(float)
 
 
 def distmat(kind, rs, n=N):
     xyz = rs.rand(n, 3) * 10
     D = np.sqrt(((xyz[:, None, :] - xyz[None, :, :]) ** 2).sum(-1))
     D = np.round(D * 4) / 4 + (1 - np.eye(n)) * 0.25
+    if kind in ('bool', 'booldiag', 'disc'):      # distances in a graph with two components
+        h = n // 2
+        D[:h, h:] = np.inf
+        D[h:, :h] = np.inf
+        return D
     if kind in ('wdiag', 'signed', 'int'):
         D[np.arange(n), np.arange(n)] = 1.0
     if kind == 'int':
@@ -212,7 +237,7 @@ def _override(name, kind, rs):
     return 'generic'
 
 
-def build(name, func, kind, rs):
+def build(name, func, kind, rs, flags=None):
     o = _override(name, kind, rs)
     if o is None:
         return None
@@ -221,8 +246,100 @@ def build(name, func, kind, rs):
             sig = inspect.signature(func)
         except (TypeError, ValueError):
             return None
-        return generic(name, sig, kind, rs)
+        o = generic(name, sig, kind, rs)
+        if o is None:
+            return None
+    if flags:
+        o = dict(o)
+        o.update(flags)
     return o
+
+
+NOT_FLAGS = {'seed', 'copy', 'fname'}
+_GM_TYPES = ['matching', 'neighbors', 'euclidean', 'clu-avg', 'clu-diff', 'clu-max', 'clu-min', 'clu-prod',
+             'deg-avg', 'deg-diff', 'deg-max', 'deg-min', 'deg-prod']
+# choices that the docstrings do not quote (read off the code's dispatch)
+EXTRA_FLAGS = {'generative_model': [('model_type', _GM_TYPES), ('model_var', ['powerlaw', 'exponential'])],
+               'evaluate_generative_model': [('model_type', _GM_TYPES), ('model_var', ['powerlaw', 'exponential'])],
+               'clustering_coef_wu_sign': [('coef_type', ['default', 'zhang', 'constantini'])],
+               'weight_conversion': [('wcm', ['normalize', 'binarize', 'lengths'])]}
+
+
+def flag_space(func):
+    """[(parameter, [values])] for the boolean / small-enum keyword parameters of func: bool default -> both values;
+    str default (or None default) with quoted choices in the parameter's docstring paragraph -> default + choices;
+    an int parameter called `flag` -> 0..4 (the assortativity conventions)"""
+    import re
+    try:
+        sig = inspect.signature(func)
+    except (TypeError, ValueError):
+        return []
+    doc = (func.__doc__ or '').split('\n')
+    out = []
+    for p, prm in sig.parameters.items():
+        if p in NOT_FLAGS or prm.default is inspect.Parameter.empty:
+            continue
+        d = prm.default
+        block, on = [], False
+        for ln in doc:
+            if re.match(r'\s*%s\s*:' % re.escape(p), ln):
+                on = True
+                block.append(ln)
+                continue
+            if on:
+                if re.match(r'\s*[A-Za-z_][A-Za-z0-9_, ]*\s*:\s', ln) or re.match(r'\s*(Returns|Notes|References)\s*$', ln):
+                    break
+                block.append(ln)
+        choices = []
+        for tok in re.findall(r"'([A-Za-z0-9_\-]+)'|\"([A-Za-z0-9_\-]+)\"", ' '.join(block)):
+            t = tok[0] or tok[1]
+            if t not in choices:
+                choices.append(t)
+        if isinstance(d, bool):
+            out.append((p, [d, not d]))
+        elif isinstance(d, str):
+            vals = [d] + [c for c in choices if c != d]
+            if len(vals) > 1:
+                out.append((p, vals))
+        elif d is None and choices and re.search(r'str|enum', ' '.join(block[:1]), re.I):
+            out.append((p, [None] + choices))
+        elif isinstance(d, int) and p == 'flag':
+            out.append((p, [0, 1, 2, 3, 4]))
+    for p, vals in EXTRA_FLAGS.get(getattr(func, '__name__', ''), []):
+        out = [(q, v) for q, v in out if q != p] + [(p, vals)]
+    return out
+
+
+def flag_combos(func, rs, cap=16):
+    """all combinations of flag_space(func) (defaults first); beyond `cap` a random sample that keeps the default
+    combination and, for every single flag value, at least one combination containing it"""
+    import itertools
+    sp = flag_space(func)
+    if not sp:
+        return [{}]
+    names = [p for p, _ in sp]
+    total = 1
+    for _, v in sp:
+        total *= len(v)
+    if total <= cap:
+        return [dict(zip(names, c)) for c in itertools.product(*[v for _, v in sp])]
+    combos = [dict((p, v[0]) for p, v in sp)]
+    for p, v in sp:                      # one-at-a-time deviations from the defaults
+        for x in v[1:]:
+            c = dict(combos[0])
+            c[p] = x
+            if c not in combos:
+                combos.append(c)
+    tries = 0
+    while len(combos) < max(cap, 0) and tries < 200:
+        tries += 1
+        c = dict((p, v[int(rs.randint(len(v)))]) for p, v in sp)
+        if c not in combos:
+            combos.append(c)
+    if len(combos) > cap:
+        keep = [combos[0]] + [combos[1 + int(i)] for i in rs.permutation(len(combos) - 1)[:cap - 1]]
+        combos = keep
+    return combos
 
 
 def deep_copy(v):
